@@ -1,7 +1,8 @@
 """C08 - Validation accepts exactly the well-formed instances; typed view keeps content."""
 from vx import core, v1types
 from vx.props import common
-from vx.units import validate as va, evaluate as ev, fn_stubs
+from vx.units import validate as va, evaluate as ev, fn_stubs, typed_parse as tp, typed_types, bound
+from vx.props import C05
 
 
 def build(asm, tier):
@@ -22,6 +23,18 @@ pub open spec fn cfun(c: v1::Constraint) -> v1::Function { match c.function { So
     asm.file('spec/logenc_spec.rs')
     asm.file('spec/c12_spec.rs')
     asm.file('spec/validate_spec.rs')
+    # ---- part B: typed layer ----
+    asm.raw(common.ZERO_TRAIT)
+    bound.types(asm)
+    C05.newtypes(asm)
+    typed_types.emit(asm)
+    asm.file('spec/bound_spec.rs')
+    asm.raw('''// bounds of decision variables: unset = unbounded, [0,1] for binaries (kind code 1)
+pub open spec fn dv_lower(v: v1::DecisionVariable) -> XR { match v.bound { Some(b) => b.lower@, None => if v.kind == 1 { XR::Fin(0real) } else { XR::NegInf } } }
+pub open spec fn dv_upper(v: v1::DecisionVariable) -> XR { match v.bound { Some(b) => b.upper@, None => if v.kind == 1 { XR::Fin(1real) } else { XR::PosInf } } }
+pub open spec fn dv_bound_ok(v: v1::DecisionVariable) -> bool { inv(dv_lower(v), dv_upper(v)) }
+''')
+    asm.file('spec/parse_spec.rs')
     asm.raw('} // mod lib\npub mod units {\n' + common.UNITS_USES + 'broadcast use super::lib::ax_zero_f64, super::lib::lemma_lin_ids_mem_b, super::lib::lemma_dv_ids_mem_b;\n')
     asm.raw(fn_stubs.ZERO + va.USED_STUBS, 'assumed callee contracts')
     asm.stubs.append(dict(unit='Function::zero', proved_in='C02'))
@@ -32,6 +45,16 @@ pub open spec fn cfun(c: v1::Constraint) -> v1::Function { match c.function { So
               va.p_objective(), va.p_used_ids(), va.p_validate_ids(), va.p_validate_constraint_ids(), va.p_validate()):
         asm.unit(u)
     asm.raw('} // mod units\n')
+    asm.raw('pub mod tunits {\nuse vstd::prelude::*;\nuse vstd::std_specs::ops::*;\nuse super::lib::*;\nuse std::collections::{HashMap, HashSet, BTreeSet, BTreeMap};\nbroadcast use super::lib::ax_variable_id_key_model, super::lib::ax_constraint_id_key_model;\n')
+    bu = {u.name: u for u in bound.units()}
+    for n in ('BoundError::check', 'Bound::new', 'Default for Bound'):
+        asm.unit(bu[n])
+    for u in (ev.bound_try_from_v1bound(), ev.bound_try_from_dv(), tp.parse_error_from_raw(), tp.parse_error_from_bound_error(), tp.parse_error_context(), tp.raw_parse_error_context(), tp.parse_as(),
+              tp.kind_parse(), tp.equality_parse(), tp.sense_parse(), tp.function_parse(), tp.bound_parse(), tp.dv_parse(), tp.dvs_parse(),
+              tp.constraint_parse(), tp.removed_constraint_parse(), tp.constraints_parse(), tp.removed_constraints_parse(),
+              tp.as_constraint_id(), tp.as_variable_id()):
+        asm.unit(u)
+    asm.raw('} // mod tunits\n')
     asm.guard(common.guard_fn('c08', 'broadcast use ax_zero_f64;', uses='use super::lib::*;'), 'vacuity: axioms')
     asm.guard('''pub mod guard_c08b { use vstd::prelude::*; use super::lib::*;
 proof fn vacuity_pre(i: v1::Instance) requires dv_ids_distinct(i.decision_variables@), c_ids_distinct(i.constraints@, i.removed_constraints@), i.decision_variables.len() > 1, i.constraints.len() > 1, i.removed_constraints.len() > 1,
